@@ -266,8 +266,60 @@ def finish(proc, job, timeout=3000):
     return json.loads(out)
 
 
+# ----------------------------------------------------------------------------- sessions: several curves in one process
+
+def session_generators(names, curves):
+    """name -> generator object; toy curves alternate between the plain Generator and the blinded subclass
+    (state shared through the class hierarchy must not leak either)"""
+    gens = {}
+    for i, nm in enumerate(names):
+        if nm in curves:
+            gens[nm] = toy_generator(curves[nm], None if i % 2 == 0 else 3)
+        else:
+            gens[nm] = production_generator(nm)
+    return gens
+
+
+def session_call(g, op, v):
+    """the projected answer of one session call on generator g"""
+    p = g.p()
+    if op == "pfx":
+        try:
+            r = g.points_for_x(v)
+        except ValueError:
+            return []
+        except Exception as e:
+            return "exc:" + type(e).__name__
+        if not (isinstance(r, tuple) and len(r) == 2):
+            return "bad:" + repr(r)[:60]
+        out = []
+        for q in r:
+            if not (isinstance(q, tuple) and q[0] == v and isinstance(q[1], int)):
+                return "bad:wrong x " + repr(tuple(q))[:60]
+            if not g.contains_point(*q) or q.curve() is not g:
+                return "bad:point of another curve " + repr(tuple(q))[:60]
+            out.append([q[0] % p, q[1] % p])
+        return out
+    if op == "mul":
+        return call(lambda: v * g, p)
+    if op == "add":
+        return call(lambda: v * g + g.Point(g[0], g[1]), p)
+    raise AssertionError(op)
+
+
+def run_sessions(gens, sessions):
+    """sessions: lists of [curve name, op, v]; all executed in THIS process, in the given order"""
+    return [[session_call(gens[c], op, v) for c, op, v in sess] for sess in sessions]
+
+
 def main():
     job = json.load(sys.stdin)
+    if job["what"] == "session":
+        gens = session_generators(job["names"], {k: tuple(v[:3]) + (tuple(v[3]), v[4]) for k, v in job["toy"].items()})
+        out = run_sessions(gens, job["sessions"])
+        enc = lambda a: a if isinstance(a, str) else [enc(x) for x in a] if a and isinstance(a[0], list) else [hex(x) for x in a]
+        json.dump({"backends": {nm: backend_of(g) for nm, g in gens.items()}, "out": [[enc(a) for a in sess] for sess in out]}, sys.stdout)
+        return
     g = production_generator(job["curve"])
     res = {"backend": backend_of(g), "native_env": os.environ.get("PYCOIN_NATIVE", "")}
     if job["what"] == "regs":
